@@ -380,3 +380,170 @@ Proof.
   replace (a + Z.of_nat (Z.to_nat n - Z.to_nat r)) with (a + n - r) by (unfold K64 in *; lia).
   apply is_suffix_app_r.
 Qed.
+
+(* ================================================================ whole operation lists *)
+(* what the DEcoder has after an operation ([ret], [consumed]: what the call returned) *)
+Definition hhist_next (st : mem * hsctx) (H : list Z) (o : hop) (ret consumed : Z) : list Z :=
+  match o with
+  | HWrite _ _ | HSaveDict _ _ | HSetLevel _ | HAttach None => H
+  | HInit | HResetStream _ | HResetFast _ => []
+  | HLoadDict a n => load_list (fst st) a (Z.to_nat n)
+  | HAttach (Some d) => hvis (fst st) (hs_core d)
+  | HContinue src _ _ | HContinueDestSize src _ _ =>
+    if 0 <? ret then H ++ load_list (fst st) src (Z.to_nat consumed) else H
+  | HFastReset src _ _ _ | HExtState src _ _ _ =>
+    if 0 <? ret then load_list (fst st) src (Z.to_nat consumed) else []
+  end.
+
+(* documented preconditions along a run: [hop_pre], and before each streaming call the bytes the call will use as
+   history (after its own prelude) are the tail of what the decoder has *)
+Fixpoint hstream_pre (st : mem * hsctx) (H : list Z) (ops : list hop) : Prop :=
+  match ops with
+  | [] => True
+  | o :: r =>
+    hop_pre st o /\
+    match o with
+    | HContinue src n _ | HContinueDestSize src n _ =>
+      forall ke, hs_effective (fst st) (snd st) src n = Some ke -> hhist_inv (fst st) ke H
+    | _ => True
+    end /\
+    match hstep st o with
+    | Some (st', (ret, _, consumed)) => hstream_pre st' (hhist_next st H o ret consumed) r
+    | None => True
+    end
+  end.
+
+Definition win_strict (H out src : list Z) : Prop :=
+  forall K, 65535 <= Z.of_nat K -> strict_valid (lastn K H) out = Some src.
+Definition win_spec (H out src : list Z) : Prop :=
+  forall K, 65535 <= Z.of_nat K -> spec_decode (lastn K H) out = Some src.
+
+(* every successful block of a run that stays inside the model decodes with any decoder window of >= 65535 bytes:
+   strictly (end-of-block conditions included) for LZ4_compress_HC_continue and the one-shot entry points, to the
+   consumed prefix for LZ4_compress_HC_continue_destSize; and it fits the capacity *)
+Fixpoint hstream_claim (st : mem * hsctx) (H : list Z) (ops : list hop) : Prop :=
+  match ops with
+  | [] => True
+  | o :: r =>
+    match hstep st o with
+    | None => True
+    | Some (st', (ret, out, consumed)) =>
+      match o with
+      | HContinue src n cap =>
+        (compressBound n <= cap -> n <= LZ4_MAX_INPUT_SIZE -> 0 < ret) /\
+        (0 < ret -> ret = Z.of_nat (length out) /\ ret <= Z.max cap (compressBound n) /\ consumed = n /\
+                    win_strict H out (load_list (fst st) src (Z.to_nat n)))
+      | HContinueDestSize src n target =>
+        0 < ret -> ret = Z.of_nat (length out) /\ ret <= target /\ 0 <= consumed <= n /\
+                   win_spec H out (load_list (fst st) src (Z.to_nat consumed))
+      | HFastReset src n cap _ | HExtState src n cap _ =>
+        (compressBound n <= cap -> n <= LZ4_MAX_INPUT_SIZE -> 0 < ret) /\
+        (0 < ret -> ret = Z.of_nat (length out) /\ ret <= Z.max cap (compressBound n) /\ consumed = n /\
+                    strict_valid [] out = Some (load_list (fst st) src (Z.to_nat n)))
+      | _ => True
+      end /\
+      hstream_claim st' (hhist_next st H o ret consumed) r
+    end
+  end.
+
+Lemma hwlim_cap n cap : 0 <= n <= LZ4_MAX_INPUT_SIZE ->
+  hwlim (if cap <? compressBound n then LimitedOutput else NotLimited) n cap <= Z.max cap (compressBound n).
+Proof.
+  intros Hn. unfold hwlim, compressBound. replace ((n <? 0) || (n >? LZ4_MAX_INPUT_SIZE)) with false by lia.
+  destruct (cap <? n + n / 255 + 16) eqn:E2; lia.
+Qed.
+
+Lemma k_generic_mid_pos m ke dc src n cap lim ret consumed out hw c' :
+  0 <= n < 2147483648 -> k_generic_mid m ke dc src n cap lim = Some (HRes ret consumed out hw c') -> 0 < ret ->
+  n <= LZ4_MAX_INPUT_SIZE.
+Proof.
+  intros Hn. unfold k_generic_mid.
+  destruct (match lim with FillOutput => cap <? 1 | _ => false end); [intros H; injection H as <- _ _ _ _; lia|].
+  destruct (u32 n >? LZ4_MAX_INPUT_SIZE) eqn:E; [intros H; injection H as <- _ _ _ _; lia|].
+  intros _ _. rewrite u32s in E by lia. lia.
+Qed.
+
+Lemma hs_continue_generic_pos m c src n cap lim ret consumed out hw c' :
+  0 <= n < 2147483648 -> hs_continue_generic m c src n cap lim = Some (HRes ret consumed out hw c') -> 0 < ret ->
+  n <= LZ4_MAX_INPUT_SIZE.
+Proof.
+  intros Hn. rewrite hs_continue_generic_eq. destruct (is_mid _); [|discriminate].
+  destruct (hs_effective m c src n) as [ke|]; [|discriminate]. apply k_generic_mid_pos. exact Hn.
+Qed.
+
+Lemma hs_fastReset_pos m c src n cap level ret consumed out hw c' :
+  0 <= n < 2147483648 -> hs_fastReset m c src n cap level = Some (HRes ret consumed out hw c') -> 0 < ret ->
+  n <= LZ4_MAX_INPUT_SIZE.
+Proof.
+  intros Hn. unfold hs_fastReset. cbv zeta. destruct (is_mid _); [|discriminate].
+  rewrite hs_generic_eq. destruct (hs_pick _ src n) as [ke|]; [|discriminate]. apply k_generic_mid_pos. exact Hn.
+Qed.
+
+(* the claims for one successful streaming call, from [call_post] *)
+Lemma continue_claims m ke src n cap ret consumed out hw c' H :
+  0 <= n < 2147483648 -> k_ready ke src ->
+  call_post m ke src n cap (if cap <? compressBound n then LimitedOutput else NotLimited) ret consumed out hw c' ->
+  hhist_inv m ke H -> (0 < ret -> n <= LZ4_MAX_INPUT_SIZE) ->
+  (compressBound n <= cap -> n <= LZ4_MAX_INPUT_SIZE -> 0 < ret) /\
+  (0 < ret -> ret = Z.of_nat (length out) /\ ret <= Z.max cap (compressBound n) /\ consumed = n /\
+              win_strict H out (load_list m src (Z.to_nat n))).
+Proof.
+  intros Hn R Q HI Hpos. pose proof Q as (_ & _ & _ & Q4 & Q5 & _ & Q7).
+  split.
+  - intros Hb Hmax. replace (cap <? compressBound n) with false in Q5 by lia. apply Q5; [reflexivity | exact Hmax].
+  - intros Hr. destruct (Q7 Hr) as (_ & E1 & E2 & _ & E4 & _).
+    assert (Hl : (if cap <? compressBound n then LimitedOutput else NotLimited) <> FillOutput) by (destruct (cap <? compressBound n); discriminate).
+    specialize (E4 Hl). subst consumed.
+    destruct (hs_call_decodes m ke src n cap _ ret n out hw c' H R Q HI Hr) as (_ & D2 & _).
+    split; [exact E1|]. split; [pose proof (hwlim_cap n cap ltac:(specialize (Hpos Hr); lia)); lia|].
+    split; [reflexivity|]. intros K HK. apply (D2 Hl K HK).
+Qed.
+
+Theorem hstream_roundtrip : forall ops st H, hstate_inv st -> hstream_pre st H ops -> hstream_claim st H ops.
+Proof.
+  induction ops as [|o r IH]; intros st H Inv P; cbn [hstream_pre hstream_claim] in *; [exact I|].
+  destruct P as (P1 & P2 & P3).
+  destruct (hstep st o) as [[st' [[ret out] consumed]]|] eqn:E; [|exact I].
+  split; [|apply IH; [apply (hstep_inv st o st' _ Inv P1 E) | exact P3]].
+  destruct st as [m c]. destruct Inv as (Hm & K). cbn [fst snd] in *.
+  destruct o; try exact I; cbn [hstep hop_pre snd] in *.
+  - (* LZ4_compress_HC_continue *)
+    apply of_res_inv in E. destruct E as (ret' & consumed' & out' & hw & c' & E0 & _ & Ex). injection Ex as -> -> ->.
+    destruct P1 as (Pd & Ps & Pn & Pc). unfold hs_continue in E0.
+    destruct (hs_continue_generic_sound m c src n cap _ ret' consumed' out' hw c' Hm K Pd Ps Pn Pc E0) as (ke & Ee & R & _ & Q).
+    apply (continue_claims m ke src n cap ret' consumed' out' hw c' H Pn R Q (P2 ke Ee)).
+    apply (hs_continue_generic_pos m c src n cap _ ret' consumed' out' hw c' Pn E0).
+  - (* LZ4_compress_HC_continue_destSize *)
+    apply of_res_inv in E. destruct E as (ret' & consumed' & out' & hw & c' & E0 & _ & Ex). injection Ex as -> -> ->.
+    destruct P1 as (Pd & Ps & Pn & Pc). unfold hs_continue_destSize in E0.
+    destruct (hs_continue_generic_sound m c src n target FillOutput ret' consumed' out' hw c' Hm K Pd Ps Pn Pc E0) as (ke & Ee & R & _ & Q).
+    intros Hr. pose proof Q as (_ & _ & _ & Q4 & _ & _ & Q7). destruct (Q7 Hr) as (_ & E1 & E2 & E3 & _).
+    destruct (hs_call_decodes m ke src n target FillOutput ret' consumed' out' hw c' H R Q (P2 ke Ee) Hr) as (D1 & _ & _).
+    split; [exact E1|]. split; [unfold hwlim in Q4; lia|]. split; [exact E3|]. intros Kk HK. apply (D1 Kk HK).
+  - (* LZ4_compress_HC_extStateHC_fastReset *)
+    apply of_res_inv in E. destruct E as (ret' & consumed' & out' & hw & c' & E0 & _ & Ex). injection Ex as -> -> ->.
+    destruct P1 as (Ps & Pn & Pc).
+    pose proof (hs_fastReset_sound m c src n cap level ret' consumed' out' hw c' Hm K Ps Pn Pc E0) as Q. cbv zeta in Q.
+    destruct Q as (R & Q1 & Q2 & Q).
+    assert (HI : hhist_inv m (k_init_internal (hs_core (hs_resetFast c level)) src) []).
+    { unfold hhist_inv. rewrite hvis_nil; [apply is_suffix_nil | unfold k_xlen; lia|].
+      unfold k_plen. destruct R as ((_ & Pp & _) & _ & _ & _ & Re). unfold k_endIdx in Q2. lia. }
+    pose proof (continue_claims m _ src n cap ret' consumed' out' hw c' [] Pn R Q HI
+                  (hs_fastReset_pos m c src n cap level ret' consumed' out' hw c' Pn E0)) as (C1 & C2).
+    split; [exact C1|]. intros Hr. destruct (C2 Hr) as (A1 & A2 & A3 & A4).
+    split; [exact A1|]. split; [exact A2|]. split; [exact A3|].
+    specialize (A4 (Z.to_nat 65535) ltac:(lia)). unfold lastn in A4. cbn [length skipn Nat.sub] in A4. exact A4.
+  - (* LZ4_compress_HC_extStateHC *)
+    apply of_res_inv in E. destruct E as (ret' & consumed' & out' & hw & c' & E0 & _ & Ex). injection Ex as -> -> ->.
+    destruct P1 as (Ps & Pn & Pc). unfold hs_extState in E0.
+    pose proof (hs_fastReset_sound m hs_init src n cap level ret' consumed' out' hw c' Hm hs_init_ok Ps Pn Pc E0) as Q. cbv zeta in Q.
+    destruct Q as (R & Q1 & Q2 & Q).
+    assert (HI : hhist_inv m (k_init_internal (hs_core (hs_resetFast hs_init level)) src) []).
+    { unfold hhist_inv. rewrite hvis_nil; [apply is_suffix_nil | unfold k_xlen; lia|].
+      unfold k_plen. destruct R as ((_ & Pp & _) & _ & _ & _ & Re). unfold k_endIdx in Q2. lia. }
+    pose proof (continue_claims m _ src n cap ret' consumed' out' hw c' [] Pn R Q HI
+                  (hs_fastReset_pos m hs_init src n cap level ret' consumed' out' hw c' Pn E0)) as (C1 & C2).
+    split; [exact C1|]. intros Hr. destruct (C2 Hr) as (A1 & A2 & A3 & A4).
+    split; [exact A1|]. split; [exact A2|]. split; [exact A3|].
+    specialize (A4 (Z.to_nat 65535) ltac:(lia)). unfold lastn in A4. cbn [length skipn Nat.sub] in A4. exact A4.
+Qed.
